@@ -134,10 +134,12 @@ def _depth(v):
     return best
 
 
-def parse_line(raw_line):
-    """One line (without its newline) -> ('rec', entry, body_text) | ('empty'|'bad8'|'junk',)"""
+def parse_line(raw_line, terminated=True):
+    """One line (without its newline) -> ('rec', entry, body_text) | ('empty'|'bad8'|'junk',)
+    A carriage return is part of the line ending only in front of a newline (CRLF): on a last
+    line that no newline terminates it is an ordinary byte of the line."""
     line = raw_line
-    if line.endswith(b"\r"):
+    if terminated and line.endswith(b"\r"):
         line = line[:-1]
     try:
         text = line.decode("utf-8")
@@ -164,7 +166,8 @@ def parse_line(raw_line):
 
 def parse_bucket(data):
     """bytes of a bucket file -> list of parsed lines (see parse_line)."""
-    return [parse_line(l) for l in data.split(b"\n")]
+    parts = data.split(b"\n")
+    return [parse_line(l, terminated=(i < len(parts) - 1)) for i, l in enumerate(parts)]
 
 
 def effective(lines):
